@@ -14,6 +14,7 @@ from harness import values as V
 from harness.core import cbool, clist, err_name
 
 PID = "C04"
+TRANSLATE = ["EqTyping.v"]     # translator tie: coq/gen_proofs/EqTyping.v is re-proved against definitions regenerated from /repo
 PRELUDE = "From Coq Require Import List.\nImport ListNotations.\nFrom Serif Require Import Base.PyVal Corr.C04."
 FAILING = "C04.failing"
 SHARD = 500
@@ -85,8 +86,34 @@ def rand_vec(rng, n, pool):
     return [rng.choice(pool) for _ in range(n)]
 
 
-def callsite_cases(rng, n):
+HOMOG = {"bool": [["b", True], ["b", False]], "int": [["i", 2], ["i", -3], ["i", 0]],
+         "float": [["f", (0.5).hex()], ["f", (-8.0).hex()], ["f", (2.0).hex()]],
+         "complex": [["c", (0.0).hex(), (1.0).hex()], ["c", (2.0).hex(), (0.0).hex()]],
+         "str": [["s", "x"], ["s", "%s"]]}
+
+
+def homogeneous_cases(rng):
+    """Every operator on operands of ONE kind (the place where a 'closed under the operator' shortcut
+    would keep the operand dtype): True + True, 2 ** -3, (-8.0) ** 0.5, 7 / 2 ... with and without None,
+    vector-vector, vector-list and vector-scalar forms."""
     cs = []
+    for kind, pool in HOMOG.items():
+        for fn in OPS:
+            for nullable in (False, True):
+                for form in ("vec", "list", "scalar"):
+                    ln = rng.randint(1, 3)
+                    a = [rng.choice(pool) for _ in range(ln)] + ([["N"]] if nullable else [])
+                    if form == "scalar":
+                        b = rng.choice(pool)
+                    else:
+                        b = [rng.choice(pool) for _ in range(len(a))]
+                    rng.shuffle(a)
+                    cs.append({"op": "arith", "fn": fn, "a": a, "b": b, "form": form})
+    return cs
+
+
+def callsite_cases(rng, n):
+    cs = homogeneous_cases(rng)
     numeric = [s for s in SCALARS if s[0] not in ("s",)]
     strs = [["s", "x"], ["s", "yy"], ["N"], ["S", "q"]]
     for _ in range(n):
